@@ -407,3 +407,50 @@ PROPS["C20"] = dict(
     outside=["q_number (rationals, rounding): no mpq model", "string round trips (GMP code)", "numbers beyond the model's 100-bit range", "z_number::operator<< / >> with negative shift amounts (the wrappers pass |k| to GMP; noted, not claimed)"],
     assumptions=E1_ASSUME + GMP_ASSUME + E2_ASSUME,
     technique="bounded model checking of the compiled wrappers (clang -> LLVM IR -> C -> CBMC) + solver-based symbolic execution of linear_constraints.hpp (z3-backed z_number)")
+
+# ---------------------------------------------------------------- C19: environments and sets
+C19_LAYOUTS = [  # (keys of A, keys of B, probe keys): leaf/leaf, leaf/node, node/node, disjoint, nested, equal prefix, far apart
+    ("1", "2", "3"), ("1", "1", "2"), ("1,2", "3", "4"), ("1,2", "1,2", "5"), ("1,2,3", "2", "8"), ("2,3", "1,2,3", "0"),
+    ("4,5", "6,7", "1"), ("4,6", "5,7", "12"), ("8,9", "1", "10"), ("1", "8,9", "16"), ("0,1", "2,3", "4"),
+    ("1,9223372036854775808", "2", "3"), ("9223372036854775808,9223372036854775809", "1,9223372036854775808", "0"),
+    ("16,17", "16,20", "18"), ("3,5", "3,6", "4"), ("7", "8", "15"),
+]
+
+
+def c19_jobs(tier, seed):
+    J = []
+    for e in ("h_pt_bits", "h_pt_nested", "h_pt_prefix"):
+        J.append(E1Job("ptbits", e, what="patricia bit kernels for arbitrary 64-bit indices", unwind=70, timeout=600, args={"libs": [], "seed": 1 + seed}))
+    layouts = list(C19_LAYOUTS)
+    rng = random.Random(190 + seed)
+    pool = list(range(0, 12)) + [16, 17, 31, 32, 33, 64, 255, 256, 1 << 31, (1 << 31) + 1, 1 << 62, (1 << 63), (1 << 63) + 5, (1 << 64) - 1]
+    n = 30 if tier == "quick" else 600
+    while len(layouts) < n:
+        ka = rng.sample(pool, rng.choice([1, 2, 2, 3]))
+        kb = rng.sample(pool, rng.choice([1, 2, 2, 3]))
+        if rng.random() < 0.5:
+            kb = kb[:-1] + [rng.choice(ka)]
+        layouts.append((",".join(map(str, ka)), ",".join(map(str, kb)), str(rng.choice(pool))))
+    ops = ["join", "meet", "widen", "narrow", "leq", "update"]
+    for i, (ka, kb, kx) in enumerate(layouts):
+        big = len(ka.split(",")) + len(kb.split(",")) >= 5
+        for j, op in enumerate(ops):
+            if tier == "quick" and i >= len(C19_LAYOUTS) and (i + j) % 3:
+                continue
+            J.append(Job("sepdom", {"op": op, "ka": ka, "kb": kb, "kx": kx, "shapes": 0 if big else 1}, what="separate_domain %s on key layout A={%s} B={%s}" % (op, ka, kb),
+                         witnesses=1, budget=400, soft=i >= len(C19_LAYOUTS)))
+        ka4 = ",".join((ka.split(",") + ["40", "41"])[:4])
+        kb4 = ",".join((kb.split(",") + ["41", "48"])[:4])
+        if tier == "thorough" or i % 2 == 0:
+            J.append(Job("sepdom", {"op": "set", "ka": ka4, "kb": kb4, "kx": kx}, what="patricia_tree_set over candidates {%s} / {%s} with symbolic membership" % (ka4, kb4), witnesses=1, budget=300))
+    return J
+
+
+PROPS["C19"] = dict(
+    jobs=c19_jobs, engine="E2+E1",
+    explanation="separate_domain<key, interval<z_number>> over the real patricia trees: for concrete key layouts (bit patterns enumerated: leaf/leaf, leaf/node, node/node, disjoint, nested, equal prefixes, indices up to 2^64-1) and SYMBOLIC interval values (every value-dependent merge decision forks under solver control), "
+                "join/meet/widening/narrowing/<=/==/set/remove/join(k,v)/rename/project agree with the point-wise reference map on every key, iteration lists exactly the non-top bindings once, operands are unchanged; patricia_tree_set with symbolic membership: union, intersection, difference, membership, subset, iteration exact; "
+                "E1: the bit kernels (branching bit, mask, match_prefix, zero_bit, routing invariant) for arbitrary 64-bit indices.",
+    bounds={"quick": "16 curated + 14 generated key layouts (<= 3 keys per operand + 1 probe key) x 6 operations, interval values: finite or half lines, unbounded bounds; sets over 4+4 candidate keys", "thorough": "600 layouts"},
+    outside=["more than 3 keys per operand (trees deeper than 2 branch levels are reached only through the generated layouts)", "value lattices other than intervals", "separate_discrete_domain"],
+    assumptions=E2_ASSUME + E1_ASSUME)
